@@ -314,6 +314,31 @@ def h_matrix(cx, T, N, pa):
     vr = np.array([1.25 - 0.5 * i for i in range(N)], dtype=float)
     res = a.projected(vl, vr)
     check_corr(cx, res, T, 1, [None if entry(a, t) is None else np.array([sum(vl[i] * entry(a, t)[i, j] * vr[j] for i in range(N) for j in range(N))], dtype=object) for t in range(T)], 'projected')
+    # per-timeslice lists of vectors on either side, a single vector on the other; the order of the two sides matters for non-symmetric matrices
+    def vec(t, side):
+        return np.array([(1.0 + 0.25 * t + 0.5 * i) * (1 if side == 'l' else -1) ** i for i in range(N)], dtype=float)
+
+    def want(fl, fr):
+        return [None if entry(a, t) is None else np.array([sum(fl(t)[i] * entry(a, t)[i, j] * fr(t)[j] for i in range(N) for j in range(N))], dtype=object) for t in range(T)]
+    Ll = [vec(t, 'l') for t in range(T)]
+    Lr = [vec(t, 'r') for t in range(T)]
+    keep = [[v.copy() for v in Ll], [v.copy() for v in Lr], vl.copy(), vr.copy()]
+    check_corr(cx, a.projected(Ll, Lr), T, 1, want(lambda t: Ll[t], lambda t: Lr[t]), 'projected(list, list)')
+    check_corr(cx, a.projected(vl, Lr), T, 1, want(lambda t: vl, lambda t: Lr[t]), 'projected(array, list)')
+    check_corr(cx, a.projected(Ll, vr), T, 1, want(lambda t: Ll[t], lambda t: vr), 'projected(list, array)')
+    check_corr(cx, a.projected(Ll), T, 1, want(lambda t: Ll[t], lambda t: Ll[t]), 'projected(list)')
+    nrm = lambda v: v / np.sqrt(v @ v)
+    check_corr(cx, a.projected(vl, vr, normalize=True), T, 1, want(lambda t: nrm(vl), lambda t: nrm(vr)), 'projected(array, array, normalize)')
+    check_corr(cx, a.projected(Ll, Lr, normalize=True), T, 1, want(lambda t: nrm(keep[0][t]), lambda t: nrm(keep[1][t])), 'projected(list, list, normalize)')
+    cx.expect(all(np.array_equal(x, y) for x, y in zip(Ll, keep[0])) and all(np.array_equal(x, y) for x, y in zip(Lr, keep[1])) and np.array_equal(vl, keep[2]) and np.array_equal(vr, keep[3]),
+              'projected: the vector arguments (arrays and lists) are not modified')
+    for bad in ([vl] * (T + 1), [vl] * (T - 1)):
+        try:
+            a.projected(bad, vr)
+        except ValueError:
+            cx.ok('projected: list of the wrong length rejected')
+        else:
+            cx.fail('projected: list of the wrong length accepted')
     res = a.projected()
     check_corr(cx, res, T, 1, [None if entry(a, t) is None else np.array([1.0 * entry(a, t)[0, 0] * 1.0 + sum(0.0 * entry(a, t)[i, j] for i in range(N) for j in range(N) if (i, j) != (0, 0))], dtype=object) for t in range(T)], 'projected-default')
     if cx.mode == 'sym':
